@@ -64,9 +64,13 @@ def ResolverOK (s : SchemaD) (rv : Bool) (t : TypeD) (f : FieldD) : Prop :=
 
 /-! ### per-rule predicates -/
 
-/-- arguments: well-formed unique names, input types -/
+/-- a declared default conforms to the type of its position, as far as the rule checks (`defaultBad`: no null under
+    non-null, lists under list types, 32-bit integers under Int, own values under enums, mappings under input objects) -/
+def DefaultOK (s : SchemaD) (a : ArgD) : Prop := a.hasDefault = true → defaultBad s defaultFuel a.type a.default = false
+
+/-- arguments: well-formed unique names, input types, conforming defaults -/
 def ArgsOK (s : SchemaD) (args : List ArgD) : Prop :=
-  (∀ a ∈ args, ValidName a.name ∧ isInputType s a.type = true) ∧ (args.map (·.name)).Nodup
+  (∀ a ∈ args, ValidName a.name ∧ isInputType s a.type = true ∧ DefaultOK s a) ∧ (args.map (·.name)).Nodup
 
 /-- object / interface fields: at least one, well-formed unique names, output types, arguments, resolver -/
 def FieldsOK (s : SchemaD) (rv : Bool) (t : TypeD) : Prop :=
@@ -90,11 +94,11 @@ def UnionOK (s : SchemaD) (t : TypeD) : Prop :=
   t.members ≠ [] ∧ (∀ m ∈ t.members, kindOf s m = some .object) ∧ t.members.Nodup
 
 def EnumOK (t : TypeD) : Prop :=
-  t.values ≠ [] ∧ ∀ v ∈ t.values, ValidName v.name
+  t.values ≠ [] ∧ ∀ v ∈ t.values, ValidName v.name ∧ isNone v.value = false
 
 def InputOK (s : SchemaD) (t : TypeD) : Prop :=
   t.inputFields ≠ [] ∧
-  (∀ f ∈ t.inputFields, ValidName f.name ∧ isInputType s f.type = true) ∧
+  (∀ f ∈ t.inputFields, ValidName f.name ∧ isInputType s f.type = true ∧ DefaultOK s f) ∧
   (t.inputFields.map (·.name)).Nodup
 
 def TypeOK (s : SchemaD) (rv : Bool) (t : TypeD) : Prop :=
@@ -133,13 +137,16 @@ def ValidSchema (s : SchemaD) (rv : Bool := true) : Prop :=
 /-- `x` occurs in `xs` with exactly `pre` before it -/
 def At {α} (xs pre : List α) (x : α) : Prop := ∃ post, xs = pre ++ x :: post
 
-inductive ArgViol (s : SchemaD) (dupRule notInputRule : Rule) (owner : String) (args : List ArgD) : Err → Prop
+inductive ArgViol (s : SchemaD) (dupRule notInputRule defRule : Rule) (owner : String) (args : List ArgD) : Err → Prop
   | name {pre a} : At args pre a → isValidName a.name = false →
-      ArgViol s dupRule notInputRule owner args ⟨.invalidName, [a.name]⟩
+      ArgViol s dupRule notInputRule defRule owner args ⟨.invalidName, [a.name]⟩
   | dup {pre a} : At args pre a → a.name ∈ pre.map (·.name) →
-      ArgViol s dupRule notInputRule owner args ⟨dupRule, [a.name, owner]⟩
+      ArgViol s dupRule notInputRule defRule owner args ⟨dupRule, [a.name, owner]⟩
   | notInput {pre a} : At args pre a → isInputType s a.type = false →
-      ArgViol s dupRule notInputRule owner args ⟨notInputRule, [a.name, owner, a.type.render]⟩
+      ArgViol s dupRule notInputRule defRule owner args ⟨notInputRule, [a.name, owner, a.type.render]⟩
+  | badDefault {pre a} : At args pre a → isInputType s a.type = true → a.hasDefault = true →
+      defaultBad s defaultFuel a.type a.default = true →
+      ArgViol s dupRule notInputRule defRule owner args ⟨defRule, [a.name, owner]⟩
 
 inductive ResolverViol (path : String) (args : List ArgD) (r : ResolverD) : Err → Prop
   | positional : r.params.any (·.kind == .varPos) = false → (positionalParams r.params).length < 3 →
@@ -166,7 +173,7 @@ inductive FieldViol (s : SchemaD) (rv : Bool) (t : TypeD) : Err → Prop
   | notOutput {pre f} : At t.fields pre f → isOutputType s f.type = false →
       FieldViol s rv t ⟨.fieldNotOutput, [f.name, t.name, f.type.render]⟩
   | arg {pre f e} : At t.fields pre f →
-      ArgViol s .dupArg .argNotInput (t.name ++ "." ++ f.name) f.args e → FieldViol s rv t e
+      ArgViol s .dupArg .argNotInput .argDefault (t.name ++ "." ++ f.name) f.args e → FieldViol s rv t e
   | resolver {pre f r e} : At t.fields pre f → t.kind = .object → pickResolver s t f = some r →
       rv = true → r.callable = true → r.inspectable = true → ResolverViol (t.name ++ "." ++ f.name) f.args r e → FieldViol s rv t e
   | subscription {pre f r e} : At t.fields pre f → t.kind = .object → f.subscriptionResolver = some r →
@@ -208,6 +215,7 @@ inductive UnionViol (s : SchemaD) (t : TypeD) : Err → Prop
 inductive EnumViol (t : TypeD) : Err → Prop
   | empty : t.values = [] → EnumViol t ⟨.enumEmpty, [t.name]⟩
   | name {v} : v ∈ t.values → isValidName v.name = false → EnumViol t ⟨.invalidName, [v.name]⟩
+  | noneValue {v} : v ∈ t.values → isNone v.value = true → EnumViol t ⟨.enumValueNone, [t.name, v.name]⟩
 
 inductive InputViol (s : SchemaD) (t : TypeD) : Err → Prop
   | empty : t.inputFields = [] → InputViol s t ⟨.noFields, [t.name]⟩
@@ -215,6 +223,8 @@ inductive InputViol (s : SchemaD) (t : TypeD) : Err → Prop
   | dup {pre f} : At t.inputFields pre f → f.name ∈ pre.map (·.name) → InputViol s t ⟨.dupField, [f.name, t.name]⟩
   | notInput {pre f} : At t.inputFields pre f → isInputType s f.type = false →
       InputViol s t ⟨.inputFieldNotInput, [f.name, t.name, f.type.render]⟩
+  | badDefault {pre f} : At t.inputFields pre f → isInputType s f.type = true → f.hasDefault = true →
+      defaultBad s defaultFuel f.type f.default = true → InputViol s t ⟨.inputFieldDefault, [f.name, t.name]⟩
 
 inductive TypeViol (s : SchemaD) (rv : Bool) (t : TypeD) : Err → Prop
   | typeName : (t.builtin || isValidName t.name) = false → TypeViol s rv t ⟨.invalidTypeName, [t.name]⟩
@@ -234,7 +244,7 @@ inductive RootViol (s : SchemaD) : Err → Prop
 
 inductive DirViol (s : SchemaD) : Err → Prop
   | name {d} : d ∈ s.directives → isValidName d.name = false → DirViol s ⟨.invalidName, [d.name]⟩
-  | arg {d e} : d ∈ s.directives → ArgViol s .dirDupArg .dirArgNotInput d.name d.args e → DirViol s e
+  | arg {d e} : d ∈ s.directives → ArgViol s .dirDupArg .dirArgNotInput .dirArgDefault d.name d.args e → DirViol s e
 
 /-- all violation instances of a schema, with the error each one must produce -/
 inductive Violation (s : SchemaD) (rv : Bool) : Err → Prop
